@@ -195,7 +195,7 @@ func pathKey(p []int) string {
 }
 
 func isHarnessFn(ex *Exec, fn *ssa.Function) bool {
-	if raceIncludeHarness {
+	if raceIncludeHarness || ex.sh.params["RACE_HARNESS"] == 1 {
 		return false
 	}
 	if fn == nil {
